@@ -20,9 +20,21 @@ inductive Expr where
   | var (x : Nat)
   | add (a b : Expr)
   | call (f : Nat) (a : Expr)
+  /-- block literal `{|params| … }`: shares names with the scopes around it -/
   | block (s : Scope)
+  /-- nested `function (params) { … }`: a scoping root of its own, nothing is shared with it -/
+  | fn (s : Scope)
+inductive Stmt where
+  /-- `x = e` -/
+  | assign (x : Nat) (e : Expr)
+  /-- `if (c) is 0 { x = e }` -/
+  | ifz (c : Expr) (x : Nat) (e : Expr)
+  /-- `try { x = e } catch (v) { }` -/
+  | tryc (x : Nat) (e : Expr) (v : Nat)
+  /-- `return e`: from the function that lexically contains it, also out of a block -/
+  | ret (e : Expr)
 inductive Scope where
-  | mk (id : Nat) (params : List Nat) (body : List (Nat × Expr)) (result : Expr)
+  | mk (id : Nat) (params : List Nat) (body : List Stmt) (result : Expr)
 end
 
 instance : Inhabited Expr := ⟨.num 0⟩
@@ -30,7 +42,7 @@ instance : Inhabited Scope := ⟨.mk 0 [] [] (.num 0)⟩
 
 def Scope.id : Scope → Nat | .mk i _ _ _ => i
 def Scope.params : Scope → List Nat | .mk _ p _ _ => p
-def Scope.body : Scope → List (Nat × Expr) | .mk _ _ b _ => b
+def Scope.body : Scope → List Stmt | .mk _ _ b _ => b
 def Scope.result : Scope → Expr | .mk _ _ _ r => r
 
 def isParam (s : Scope) (v : Nat) : Bool := s.params.contains v
@@ -42,21 +54,35 @@ def exprUses (v : Nat) : Expr → Bool
   | .add a b => exprUses v a || exprUses v b
   | .call f a => f == v || exprUses v a
   | .block _ => false
+  | .fn _ => false
 
-/-- blocks written directly in an expression -/
+/-- blocks written directly in an expression (nested functions are separate roots) -/
 def exprKids : Expr → List Scope
   | .num _ => []
   | .var _ => []
   | .add a b => exprKids a ++ exprKids b
   | .call _ a => exprKids a
   | .block s => [s]
+  | .fn _ => []
 
-/-- `v` is used directly in `s`: parameter, assigned, read or called -/
+def stmtUses (v : Nat) : Stmt → Bool
+  | .assign x e => x == v || exprUses v e
+  | .ifz c x e => exprUses v c || x == v || exprUses v e
+  | .tryc x e w => x == v || exprUses v e || w == v
+  | .ret e => exprUses v e
+
+def stmtKids : Stmt → List Scope
+  | .assign _ e => exprKids e
+  | .ifz c _ e => exprKids c ++ exprKids e
+  | .tryc _ e _ => exprKids e
+  | .ret e => exprKids e
+
+/-- `v` is used directly in `s`: parameter, assigned, read, called, or a catch variable -/
 def usesD (s : Scope) (v : Nat) : Bool :=
-  isParam s v || s.body.any (fun st => st.1 == v || exprUses v st.2) || exprUses v s.result
+  isParam s v || s.body.any (stmtUses v) || exprUses v s.result
 
 def kids (s : Scope) : List Scope :=
-  s.body.flatMap (fun st => exprKids st.2) ++ exprKids s.result
+  s.body.flatMap stmtKids ++ exprKids s.result
 
 /-- binding scope of `v` seen from `cur` whose enclosing scopes are `chain` (innermost first):
 walk outwards over the scopes that use `v`; a parameter stops the walk. -/
@@ -86,19 +112,24 @@ def cellOf (s : Scope) (chain : List Scope) (v : Nat) : Cell :=
 
 inductive Val where
   | int (i : Int)
-  | clo (s : Scope) (chain : List Scope)
+  /-- a closure: block, enclosing scopes, and the activation (outermost call) that created it -/
+  | clo (s : Scope) (chain : List Scope) (act : Nat)
+  | fnv (s : Scope)
+  /-- an exception value caught by `catch` (the text is not modelled) -/
+  | str
 
 instance : Inhabited Val := ⟨.int 0⟩
 
-abbrev Store := List ((Nat × Nat) × Val)
+/-- shared cells: (activation, binding scope, name) -/
+abbrev Store := List ((Nat × Nat × Nat) × Val)
 abbrev Locals := List (Nat × Val)
 
-def sget (st : Store) (k : Nat × Nat) : Option Val :=
+def sget (st : Store) (k : Nat × Nat × Nat) : Option Val :=
   match st with
   | [] => none
   | (k', v) :: rest => if k' = k then some v else sget rest k
 
-def sput (st : Store) (k : Nat × Nat) (v : Val) : Store :=
+def sput (st : Store) (k : Nat × Nat × Nat) (v : Val) : Store :=
   match st with
   | [] => [(k, v)]
   | (k', v') :: rest => if k' = k then (k, v) :: rest else (k', v') :: sput rest k v
@@ -116,72 +147,145 @@ def lput (l : Locals) (k : Nat) (v : Val) : Locals :=
 structure Frame where
   s : Scope
   chain : List Scope
+  /-- the call of the outermost function this frame belongs to -/
+  act : Nat
   locals : Locals
 
-def readVar (fr : Frame) (st : Store) (v : Nat) : Option Val :=
+structure State where
+  store : Store
+  /-- next activation number -/
+  next : Nat
+
+def readVar (fr : Frame) (st : State) (v : Nat) : Option Val :=
   match cellOf fr.s fr.chain v with
-  | .shared p n => sget st (p, n)
+  | .shared p n => sget st.store (fr.act, p, n)
   | .priv n => lget fr.locals n
 
-def writeVar (fr : Frame) (st : Store) (v : Nat) (x : Val) : Frame × Store :=
+def writeVar (fr : Frame) (st : State) (v : Nat) (x : Val) : Frame × State :=
   match cellOf fr.s fr.chain v with
-  | .shared p n => (fr, sput st (p, n) x)
+  | .shared p n => (fr, { st with store := sput st.store (fr.act, p, n) x })
   | .priv n => ({ fr with locals := lput fr.locals n x }, st)
 
-def bindParams (fr : Frame) (st : Store) : List Nat → List Val → Frame × Store
+def bindParams (fr : Frame) (st : State) : List Nat → List Val → Frame × State
   | p :: ps, a :: as => let (fr', st') := writeVar fr st p a; bindParams fr' st' ps as
   | _, _ => (fr, st)
 
-/- evaluation; `none` = an exception (uninitialized variable, not a number, not callable,
-wrong number of arguments) or fuel exhausted. The callee variable is read after its argument. -/
+/-- outcome of evaluating an expression / running statements -/
+inductive Res (α : Type) where
+  /-- an exception (uninitialized variable, not a number, not callable, wrong number of
+  arguments) or fuel exhausted; the state at that point is kept for `catch` -/
+  | err (st : State)
+  | ok (a : α) (fr : Frame) (st : State)
+  /-- a `return` on its way to the function activation `act` -/
+  | ret (act : Nat) (v : Val) (st : State)
+
+/- evaluation. The callee variable is read after its argument. -/
 mutual
-def evalE : Nat → Frame → Store → Expr → Option (Val × Frame × Store)
-  | 0, _, _, _ => none
-  | _ + 1, fr, st, .num n => some (.int n, fr, st)
-  | _ + 1, fr, st, .var x => (readVar fr st x).map fun v => (v, fr, st)
+def evalE : Nat → Frame → State → Expr → Res Val
+  | 0, _, st, _ => .err st
+  | _ + 1, fr, st, .num n => .ok (.int n) fr st
+  | _ + 1, fr, st, .var x =>
+    match readVar fr st x with
+    | some v => .ok v fr st
+    | none => .err st
   | fuel + 1, fr, st, .add a b =>
     match evalE fuel fr st a with
-    | some (.int x, fr1, st1) =>
+    | .ok va fr1 st1 =>
       match evalE fuel fr1 st1 b with
-      | some (.int y, fr2, st2) => some (.int (x + y), fr2, st2)
-      | _ => none
-    | _ => none
+      | .ok vb fr2 st2 =>
+        match va, vb with
+        | .int x, .int y => .ok (.int (x + y)) fr2 st2
+        | _, _ => .err st2
+      | .err s => .err s
+      | .ret a v s => .ret a v s
+    | .err s => .err s
+    | .ret a v s => .ret a v s
   | fuel + 1, fr, st, .call f a =>
     match evalE fuel fr st a with
-    | some (arg, fr1, st1) =>
+    | .ok arg fr1 st1 =>
       match readVar fr1 st1 f with
-      | some (.clo s chain) =>
+      | some (.clo s chain act) =>
         if s.params.length = 1 then
-          let (fr0, st0) := bindParams ⟨s, chain, []⟩ st1 s.params [arg]
+          let (fr0, st0) := bindParams ⟨s, chain, act, []⟩ st1 s.params [arg]
           match runBody fuel fr0 st0 s.body with
-          | some (frb, stb) =>
+          | .ok _ frb stb =>
             match evalE fuel frb stb s.result with
-            | some (v, _, st2) => some (v, fr1, st2)
-            | none => none
-          | none => none
-        else none
-      | _ => none
-    | none => none
-  | _ + 1, fr, st, .block s => some (.clo s (fr.s :: fr.chain), fr, st)
+            | .ok v _ st2 => .ok v fr1 st2
+            | .err s => .err s
+            | .ret a v s => .ret a v s
+          | .err s => .err s
+          | .ret a v s => .ret a v s
+        else .err st1
+      | some (.fnv s) =>
+        if s.params.length = 1 then
+          let act := st1.next
+          let (fr0, st0) := bindParams ⟨s, [], act, []⟩ { st1 with next := act + 1 } s.params [arg]
+          match runBody fuel fr0 st0 s.body with
+          | .ok _ frb stb =>
+            match evalE fuel frb stb s.result with
+            | .ok v _ st2 => .ok v fr1 st2
+            | .err s => .err s
+            | .ret a v s => if a = act then .ok v fr1 s else .ret a v s
+          | .err s => .err s
+          | .ret a v s => if a = act then .ok v fr1 s else .ret a v s
+        else .err st1
+      | _ => .err st1
+    | .err s => .err s
+    | .ret a v s => .ret a v s
+  | _ + 1, fr, st, .block s => .ok (.clo s (fr.s :: fr.chain) fr.act) fr st
+  | _ + 1, fr, st, .fn s => .ok (.fnv s) fr st
 
-/-- the statements `x = e` of a scope body, in order -/
-def runBody : Nat → Frame → Store → List (Nat × Expr) → Option (Frame × Store)
-  | 0, _, _, _ => none
-  | _ + 1, fr, st, [] => some (fr, st)
-  | fuel + 1, fr, st, (x, e) :: rest =>
+/-- the statements of a scope body, in order -/
+def runBody : Nat → Frame → State → List Stmt → Res Unit
+  | 0, _, st, _ => .err st
+  | _ + 1, fr, st, [] => .ok () fr st
+  | fuel + 1, fr, st, .assign x e :: rest =>
     match evalE fuel fr st e with
-    | some (v, fr', st') =>
+    | .ok v fr' st' =>
       let (fr'', st'') := writeVar fr' st' x v
       runBody fuel fr'' st'' rest
-    | none => none
+    | .err s => .err s
+    | .ret a v s => .ret a v s
+  | fuel + 1, fr, st, .ifz c x e :: rest =>
+    match evalE fuel fr st c with
+    | .ok (.int 0) fr1 st1 =>
+      match evalE fuel fr1 st1 e with
+      | .ok v fr' st' =>
+        let (fr'', st'') := writeVar fr' st' x v
+        runBody fuel fr'' st'' rest
+      | .err s => .err s
+      | .ret a v s => .ret a v s
+    | .ok _ fr1 st1 => runBody fuel fr1 st1 rest
+    | .err s => .err s
+    | .ret a v s => .ret a v s
+  | fuel + 1, fr, st, .tryc x e w :: rest =>
+    match evalE fuel fr st e with
+    | .ok v fr' st' =>
+      let (fr'', st'') := writeVar fr' st' x v
+      runBody fuel fr'' st'' rest
+    | .err s =>
+      -- private locals written inside the failed expression are those of callee frames only
+      let (fr'', st'') := writeVar fr s w .str
+      runBody fuel fr'' st'' rest
+    | .ret a v s => .ret a v s
+  | fuel + 1, fr, st, .ret e :: _ =>
+    match evalE fuel fr st e with
+    | .ok v _ st' => .ret fr.act v st'
+    | .err s => .err s
+    | .ret a v s => .ret a v s
 end
 
 /-- one call of the outermost function with every parameter = `arg`: a fresh store -/
 def runTop (fuel : Nat) (s : Scope) (arg : Int) : Option Val :=
-  let (fr0, st0) := bindParams ⟨s, [], []⟩ [] s.params (s.params.map fun _ => Val.int arg)
+  let (fr0, st0) := bindParams ⟨s, [], 0, []⟩ ⟨[], 1⟩ s.params (s.params.map fun _ => Val.int arg)
   match runBody fuel fr0 st0 s.body with
-  | some (frb, stb) => (evalE fuel frb stb s.result).map (·.1)
-  | none => none
+  | .ok _ frb stb =>
+    match evalE fuel frb stb s.result with
+    | .ok v _ _ => some v
+    | .ret a v _ => if a = 0 then some v else none
+    | .err _ => none
+  | .ret a v _ => if a = 0 then some v else none
+  | .err _ => none
 
 /-- names a scope mentions directly (for the sharing analysis) -/
 def exprNames : Expr → List Nat
@@ -190,16 +294,26 @@ def exprNames : Expr → List Nat
   | .add a b => exprNames a ++ exprNames b
   | .call f a => f :: exprNames a
   | .block _ => []
+  | .fn _ => []
+
+def stmtNames : Stmt → List Nat
+  | .assign x e => x :: exprNames e
+  | .ifz c x e => exprNames c ++ x :: exprNames e
+  | .tryc x e w => x :: exprNames e ++ [w]
+  | .ret e => exprNames e
+
+/-- a block contains a `return` (it must then be a closure: it needs its creator's frame) -/
+def hasRet (s : Scope) : Bool := s.body.any fun st => match st with | .ret _ => true | _ => false
 
 def namesD (s : Scope) : List Nat :=
-  s.params ++ s.body.flatMap (fun st => st.1 :: exprNames st.2) ++ exprNames s.result
+  s.params ++ s.body.flatMap stmtNames ++ exprNames s.result
 
 /-- `Block.CompileAsFunction = false`: the block (or a block nested in it) uses a name bound
 outside itself. Mirror of the outcome of `ast.Blocks` (assignShared). -/
 def isClosure : Nat → List Scope → Scope → Bool
   | 0, _, _ => true
   | fuel + 1, chain, k =>
-    (namesD k).any (fun v => (bindingGo chain k v).id != k.id) ||
+    hasRet k || (namesD k).any (fun v => (bindingGo chain k v).id != k.id) ||
       (kids k).any (fun c => isClosure fuel (k :: chain) c)
 
 /-- pre-order list of (block id, compiled as closure) below the outermost function -/
